@@ -36,7 +36,7 @@ ASSUMPTIONS = [
   'the raw result of FrozenDict.tree_flatten_with_keys (an internal pytree-protocol method) is not mutated; flattening goes through jax.tree_util',
   'hash checks only where every leaf is hashable',
 ]
-PROBES = ['mutation_of_source_after_freeze', 'mutation_of_unfreeze_result', 'mutation_of_copy_argument', 'hash_checked', 'order_variant', 'pickle_roundtrip', 'struct_runs', 'retrace_on_static_change', 'cache_hit_on_dynamic_change', 'nested_frozen_in_source', 'struct_shared_metadata', 'hash_unhashable_raises', 'pickle_to_peer_interpreter']
+PROBES = ['mutation_of_source_after_freeze', 'mutation_of_unfreeze_result', 'mutation_of_copy_argument', 'hash_checked', 'order_variant', 'pickle_roundtrip', 'struct_runs', 'retrace_on_static_change', 'cache_hit_on_dynamic_change', 'nested_frozen_in_source', 'struct_shared_metadata', 'hash_unhashable_raises', 'pickle_to_peer_interpreter', 'ctor_extend', 'struct_slots']
 
 
 def setup_worker(w, tier):
@@ -162,7 +162,7 @@ def generate(rs, tier):
     r = g.random()
     a, b, c = g.randrange(64), g.randrange(64), g.randrange(64)
     if r < 0.16:
-      ops.append(dict(op=g.choice(['freeze', 'ctor', 'ctor_kwargs']), src=a, embed=g.random() < 0.25, fd=b))
+      ops.append(dict(op=g.choice(['freeze', 'ctor', 'ctor_kwargs', 'ctor_extend']), src=a, embed=g.random() < 0.25, fd=b))
     elif r < 0.26:
       ops.append(dict(op='unfreeze', fd=a, how=g.choice(['method', 'fn'])))
     elif r < 0.36:
@@ -219,7 +219,7 @@ def gen_struct(g):
       ops.append(dict(op='grad', inst=a))
     else:
       ops.append(dict(op='new', val=g.randrange(1, 6)))
-  return dict(engine='valueworld', knobs=dict(kind='struct', fields=fields, base=g.choice(['dataclass', 'PyTreeNode']), meta=g.choice([None, None, 'fresh', 'shared'])), ops=ops)
+  return dict(engine='valueworld', knobs=dict(kind='struct', fields=fields, base=g.choice(['dataclass', 'PyTreeNode', 'dataclass_slots']), meta=g.choice([None, None, 'fresh', 'shared'])), ops=ops)
 
 
 SHRINK_LISTS = ['ops']
@@ -331,6 +331,31 @@ class FWorld:
   def step(self, oi, op):
     k = op['op']
     res = self.res
+    if k == 'ctor_extend':
+      # FrozenDict(existing_frozen_dict, extra=...): the dict constructor signature; base may have been flattened,
+      # hashed, iterated before
+      base = self.pick_fd(op['fd'])
+      extra = {'zz_extra': 7, 'a_extra': (1, 2)}
+      if op['embed']:
+        jax.tree_util.tree_leaves(base)
+        hash_ok = self.hashable
+        if hash_ok:
+          hash(base)
+      fd = FrozenDict(base, **extra)
+      want = dict(_plain_tree(base))
+      want.update(extra)
+      if plain(fd) != plain(want):
+        raise Violation('freeze-wrong-content', f'op {oi}: FrozenDict(fd, **extra) differs from dict(fd, **extra)')
+      leaves = jax.tree_util.tree_leaves(fd)
+      ref_leaves = jax.tree_util.tree_leaves(want)
+      if [plain(x) for x in leaves] != [plain(x) for x in ref_leaves]:
+        raise Violation('pytree-leaves', f'op {oi}: leaves of FrozenDict(fd, **extra) differ from those of the equal plain dict')
+      if self.hashable and (fd != FrozenDict(want) or hash(fd) != hash(FrozenDict(want))):
+        raise Violation('equality-hash', f'op {oi}: FrozenDict(fd, **extra) does not equal / hash like a FrozenDict built from the merged dict')
+      res.probe('ctor_extend')
+      self.track(fd, k)
+      self.api_ops += 1
+      return
     if k in ('freeze', 'ctor', 'ctor_kwargs'):
       src = self.sources[op['src'] % len(self.sources)]
       if op['embed'] and self.fds:
@@ -611,7 +636,11 @@ class SWorld:
       else:
         ns[f['name']] = struct.field(default=None, **kw)
     ns['__annotations__'] = ann
-    if k['base'] == 'dataclass':
+    if k['base'] == 'dataclass_slots':
+      # dataclasses' own slots=True option: the decorator hands back a NEW class
+      self.cls = struct.dataclass(type('GenSlots', (), ns), slots=True)
+      res.probe('struct_slots')
+    elif k['base'] == 'dataclass':
       self.cls = struct.dataclass(type('Gen', (), ns))
     else:
       self.cls = type('GenNode', (struct.PyTreeNode,), ns)
